@@ -71,7 +71,12 @@ func (v *Validator) Validate(value interface{}, checkAll ...bool) error {
 			}
 			return io.EOF
 		}
-		nilParentFields := make(map[string]bool, 16)
+		// keyed by the struct instance too: the elements of a nested slice have the same selectors
+		type nilParentKey struct {
+			te  *tagexpr.TagExpr
+			pfs string
+		}
+		nilParentFields := make(map[nilParentKey]bool, 16)
 		err = te.Range(func(eh *tagexpr.ExprHandler) error {
 			if strings.Contains(eh.StringSelector(), tagexpr.ExprNameSeparator) {
 				return nil
@@ -86,13 +91,14 @@ func (v *Validator) Validate(value interface{}, checkAll ...bool) error {
 			}
 			// Ignore this error if the value of the parent is nil
 			if pfs, ok := eh.ExprSelector().ParentField(); ok {
-				if nilParentFields[pfs] {
+				key := nilParentKey{eh.TagExpr(), pfs}
+				if nilParentFields[key] {
 					return nil
 				}
 				if fh, ok := eh.TagExpr().Field(pfs); ok {
 					v := fh.Value(false)
 					if !v.IsValid() || (v.Kind() == reflect.Ptr && v.IsNil()) {
-						nilParentFields[pfs] = true
+						nilParentFields[key] = true
 						return nil
 					}
 				}
